@@ -2,12 +2,11 @@
 """Generates /verif/MANIFEST.json from the table below (kept valid at all times)."""
 import json
 HOOK_COMMITS = ["84a91c3"]
-CLAIMED = {
- "C09": dict(engine="shape", category="proof", design="5/C09",
-   text="Coq theorems over the executable model of shape.{h,cc}/shape_ops.cc/FWD_SHAPE rules (constructor accepts exactly the admissible arguments, canonical form, equality, element counts never wrap, update_dim/update_batch and every rule against an unbounded-arithmetic specification), model tied to the code by differential execution of ~10^5 (quick) / ~10^6 (thorough) calls incl. exhaustive small scopes and uint32 boundary values.",
-   note="Trusted: Coq kernel; hand-written model (ShapeImpl.v) tied to /repo only by the correspondence run; extraction (ExtrOcamlBasic) + OCaml driver; C++ driver. Theorems closed under the global context (no axioms).",
-   technique="Coq proof over hand model + differential correspondence (extracted OCaml vs C++)"),
-}
+import glob
+CLAIMED = {}
+for f in sorted(glob.glob("/verif/manifest.d/*.json")):
+    d = json.load(open(f))
+    CLAIMED[d["id"]] = d
 NOT_YET = {
 }
 def main():
